@@ -303,6 +303,8 @@ func checkC05(p *Prog, res *Result, tier string) {
 	res.rule("C05-R16", "the event cache is searched and copied at logical positions: whatever is handed to the ring's wrap function is the ring's start or end counter plus or minus an offset", 6)
 	res.rule("C05-R17", "revisions are not positions: no position into the event cache and no size of a replay is computed from a revision by arithmetic (revisions are not dense); they meet only in comparisons", 8)
 	res.rule("C05-R18", "events are filtered, ordered and searched by their own revision (Event.Revision), never by the revision of the key-value they carry (for a DELETE: the removed version)", 1)
+	res.rule("C05-R21", "a watch continues exactly behind what it replayed from the event cache: the live subscription starts at the requested revision on the paths without a replay and at the newest replayed revision + 1 on the paths with one", 3)
+	res.rule("C05-R20", "the etcd shim acknowledges the creation of a watch before it starts the goroutine that sends the events of that watch: the Send of the Created response dominates every go statement of Start", 2)
 	res.rule("C05-R19", "an answer of the event cache is one snapshot: a method of the ring takes the ring's lock at most once per call, directly or through the methods it calls", 3)
 	res.rule("C05-R11", "a delete hands the previous value and revision it read to the event sink on every path after the commit, whatever the commit returned: the DELETE event of a write with unknown outcome (delivered after the repair) still names what was deleted", 2)
 	res.rule("C05-R10", "a forwarder start guarded by a comparison of the requested with the committed revision uses the strict form (requested > committed)", 1)
@@ -474,6 +476,8 @@ func checkC05(p *Prog, res *Result, tier string) {
 	checkRevisionsAreNotPositions(p, res, "C05-R17")
 	checkEventsComparedByOwnRevision(p, res, "C05-R18")
 	checkRingSingleSnapshot(p, res, "C05-R19")
+	checkCreatedAckFirst(p, res, "C05-R20")
+	checkResumeBehindReplay(p, r, res, "C05-R21")
 
 	// ---- R2 ----
 	checkCacheBeforeBroadcast(p, r, w, res)
